@@ -20,8 +20,9 @@ tie:    hand-written model  <->  Array::operator()(int / index expression / rang
         arithmetic (XSHAPES below = harness/drv_views.h: k-end, end/k, k/end, (end-k)/m, end, k+end, k*end, end-end/k,
         end+k, end*k, k-end/m, k*end-m, (k-end)*m, k/(end-m), k-(m-end), max(end-k,m), min(k,end), end*end/k,
         end/k+end/m: scalar-left, scalar-right and expression-expression forms of + - * / max min, nested), the integers
-        solved so that the expression has the wanted value; ranks 1..3, in the roles scalar / range begin / range end /
-        both / stride.
+        solved so that the expression has the wanted value; rank 1: every shape in the roles scalar / range begin / range
+        end / both / stride, rank 2: 8 shapes (scalar, begin, end), ranks 3..6: 4 shapes (scalar, begin); one such argument
+        per call.
         Integer-vector indexing (IndexedArray.h; op `ix`, harness/drv_views_idx*.cpp, model AdeptModel/IndexedViews.lean):
         A(S0,S1,..) on the current view of rank 1..4 with every S a scalar / range / stride / __ / intVector / integer
         vector expression (tmp+2, end-tmp and the shapes VSHAPES: k-idx, idx*k, (end-idx)/k, idx+idx, k+idx, k*idx, idx/k,
@@ -55,6 +56,7 @@ H = os.path.join(vbuild.VERIF, "harness")
 DRIVERS = [os.path.join(H, f) for f in
            ["drv_views.cpp"] + ["drv_views_r%d%s.cpp" % (r, x) for r in (4, 5, 6) for x in ("", "i", "e")] +
            ["drv_views_act.cpp", "drv_views_fix.cpp", "drv_views_x1.cpp", "drv_views_x2.cpp", "drv_views_x3.cpp",
+            "drv_views_x4.cpp", "drv_views_x5.cpp", "drv_views_x6.cpp",
             "drv_views_idx.cpp", "drv_views_idx3.cpp", "drv_views_idx3v.cpp", "drv_views_idx4.cpp"]]
 CORR = ("AdeptModel/Views.lean, AdeptModel/IndexedViews.lean <-> Array view-forming member functions and IndexedArray "
         "(harness/drv_views*.cpp)")
@@ -99,7 +101,7 @@ def parent_view(order, dims):
 XSHAPES = ["(#-end)", "(end/#)", "(#/end)", "((end-#)/#)", "end", "(#+end)", "(#*end)", "(end-(end/#))", "(end+#)", "(end*#)",
            "(#-(end/#))", "((#*end)-#)", "((#-end)*#)", "(#/(end-#))", "(#-(#-end))", "((end-#)>#)", "(#<end)",
            "((end*end)/#)", "((end/#)+(end/#))"]
-XMENU = {1: 19, 2: 8, 3: 4}
+XMENU = {1: 19, 2: 8, 3: 4, 4: 4, 5: 4, 6: 4}
 VSHAPES = ["(#-v)", "(v*#)", "((end-v)/#)", "(v+v)", "(#+v)", "(#*v)", "(v/#)", "(v-#)", "(end-(v*#))", "((#-v)-end)", "(#/v)",
            "(v<#)", "(#>v)"]
 NVMENU2 = 4
@@ -246,7 +248,7 @@ def slice_compiled(kind, r, args):
         if kind == "P" and r == 6:
             return all(k != "A" or j == r - 1 for j, (k, _) in enumerate(parts))
         return True
-    if len(rich) > 1 or kind != "P" or r > 3:
+    if len(rich) > 1 or kind != "P":
         return False
     j = rich[0]
     k, inf = parts[j][0], infos[j]
@@ -271,8 +273,9 @@ def slice_compiled(kind, r, args):
             ok = False
     if not ok:
         return False
-    if r == 3:
-        return all(kk in "SA" for jj, (kk, _) in enumerate(parts) if jj != j)
+    if r >= 3:
+        # the other arguments: scalars and __ (rank 6: __ in the last position only)
+        return all(kk == "S" or (kk == "A" and (r < 6 or jj == r - 1)) for jj, (kk, _) in enumerate(parts) if jj != j)
     return True
 
 
@@ -926,8 +929,14 @@ class Gen:
         (roles: scalar / begin / end / begin and end / stride, as far as compiled for this rank); None if not possible"""
         rng = self.rng
         r = len(dims)
-        if kind != "P" or r > 3:
+        if kind != "P":
             return None
+        if r >= 3 and all(d > 0 for d in dims) and rng.random() < 0.5:
+            # ranks 3..6: the other arguments of such a call are scalars and __: rewrite the ranges among them
+            args = [a if (a == "_" or a.startswith("i:")) else ("_" if (r < 6 or k == r - 1) else "i:e0") for k, a in enumerate(args)]
+            keep = rng.randrange(r)
+            if dims[keep] > 0 and args[keep] == "_":
+                args[keep] = "r:%d,e0" % rng.randrange(dims[keep])
         cand = [j for j, a in enumerate(args) if a != "_"]
         rng.shuffle(cand)
         for j in cand:
@@ -941,7 +950,7 @@ class Gen:
                     p = a[2:].split(",")
                     if len(p) == 2:
                         p.append("1")
-                    roles = ["b", "e", "be", "s"] if r == 1 else (["b", "e"] if r == 2 else ["b"])
+                    roles = ["b", "e", "be", "s"] if r == 1 else (["b", "e"] if r == 2 else ["b"])      # (as compiled)
                     role = rng.choice(roles)
                     q = list(p)
                     if "b" in role:
@@ -1582,15 +1591,16 @@ def const_sweep():
 
 def rich_sweep(rng, checked, stats):
     """every compiled shape of `end` arithmetic, in every role (scalar index, range begin, range end, both, stride) and
-    every argument position, ranks 1..3 (the receiver is a reversed view of the parent), operator() / subset /
+    every argument position, ranks 1..6 (the receiver is a reversed / strided view of the parent; ranks 3..6: the first
+    four shapes, roles scalar and begin), operator() / subset /
     operator[], const and non-const; the integers of each expression are solved for a random admissible value.  In the
     bounds-checked build also every shape holding the values -1 and n as a scalar index and as range end points."""
     out = []
-    for r in (1, 2, 3):
-        dims = {1: [9], 2: [5, 6], 3: [4, 5, 3]}[r]
+    for r in (1, 2, 3, 4, 5, 6):
+        dims = {1: [9], 2: [5, 6], 3: [4, 5, 3], 4: [3, 4, 3, 4], 5: [3, 2, 4, 3, 3], 6: [3, 2, 3, 2, 3, 3]}[r]
         pre = ["parent %s %s" % ("rm" if r != 2 else "cm", " ".join(map(str, dims))), strided_view_op(dims)]
         nd = oracle_apply(parent_of(pre[0].split())[1], pre[1].split(), False, "P")[1].dims
-        roles = {1: ["S", "B", "E", "BE", "ST"], 2: ["S", "B", "E"], 3: ["S", "B"]}[r]
+        roles = {1: ["S", "B", "E", "BE", "ST"], 2: ["S", "B", "E"]}.get(r, ["S", "B"])
         for sid in range(XMENU[r]):
             shape = XSHAPES[sid]
             for role in roles:
@@ -1623,7 +1633,7 @@ def rich_sweep(rng, checked, stats):
                             arg = None if t is None or tag != "ok" else "s:%d,%d,%s" % (lo2, hi2, t)
                         if arg is None:
                             continue
-                        others = ["i:e0" if (k + j) % 2 else "_" for k in range(r)] if r == 3 else \
+                        others = [("i:e0" if (k + j) % 2 or (r == 6 and k != r - 1) else "_") for k in range(r)] if r >= 3 else \
                                  [("i:%d" % (nd[k] - 1), "r:0,e0", "_")[(k + j + sid) % 3] for k in range(r)]
                         args = list(others)
                         args[j] = arg
@@ -1925,7 +1935,7 @@ def run(ctx, replay):
         "minus on an index expression does not compile in the pinned tree (UnaryOperation::value_with_len_)",
         "argument types: the compiled menus of harness/drv_views.h (plain arguments: every mixture for passive ranks 1-2, "
         "int family or end-k family per call for ranks 3-6 / active / FixedArray, rank 6 with __ in the last position only; "
-        "`end` arithmetic: XSHAPES in one argument per call, passive ranks 1-3); active arrays: ranks 1..3, no "
+        "`end` arithmetic: XSHAPES in one argument per call, passive arrays); active arrays: ranks 1..3, no "
         "integer-vector indexing; FixedArray parents: 4, 3x4, 3x3, 2x3x4",
         "integer-vector indexing: ranks 1..4, argument-type patterns of the compiled menu (drv_views_idx.h); the default "
         "build is given admissible index-vector entries only; a zero extent behind a non-zero leading extent is probed by "
@@ -2004,7 +2014,7 @@ def run(ctx, replay):
                        "submatrix_on_diagonal, reshape, soft_link, and (passive ranks 1..4) integer-vector indexing A(S0,..) with "
                        "scalar/end-k/range/__/intVector/integer-expression selectors read and assigned through; every operation "
                        "that has a const overload goes through it with probability 1/2; with probability 0.3 one argument of an "
-                       "eligible call (passive ranks 1-3) is rewritten as `end` arithmetic of a random compiled shape with the same "
+                       "eligible call (passive arrays) is rewritten as `end` arithmetic of a random compiled shape with the same "
                        "value, and with probability 0.45 one index vector (ranks 1-2) as an integer-vector expression; "
                        "%d admissible compositions on the default build, %d on the "
                        "bounds-checked build, %d with out-of-range values injected per argument position on the bounds-checked "
